@@ -110,6 +110,8 @@ void MDSDRV_Data::read_song(Song& song)
 //! Add an instrument to the data bank.
 void MDSDRV_Data::add_instrument(uint16_t id, const Tag& tag)
 {
+	if(tag.empty())
+		throw InputError(nullptr, stringf("error: no envelope type given for instrument @%d", id).c_str());
 	auto it = tag.begin();
 	std::string type = *it++;
 	if(iequal("fm", type))
